@@ -18,7 +18,7 @@ EXPLANATION = (
     "are unit steps and opposite directions cancel). Tables are folded by the analyser's literal evaluator. (R2) the "
     "index arithmetic of transition code on non-square boards (row-major stride of flat indices such as Minesweeper's mine "
     "lookup, wrap-around moduli, bounds tests) uses the extent of the right axis (axis-kind engine shared with C07). "
-    "Not decided: everything that needs executing a reference model (2048 merges, Tetris drop and line clearing, Sokoban "
+    "(R3) LevelBasedForaging: eaten food is ignored by the movement and loading rules (frozen instance table, see rules/lbf_rules.py). Not decided: everything that needs executing a reference model (2048 merges, Tetris drop and line clearing, Sokoban "
     "pushes, JobShop clock, Minesweeper counts, ...).")
 
 MIN_PAIRINGS = 50
@@ -34,6 +34,8 @@ def check(tier: str) -> Result:
     # extent of the right axis -- the axis-kind engine of C07 (shared)
     from . import axis_rules
     n_axis = axis_rules.add_obligations(res, tree, "C09.R2", scope="all")
+    from . import lbf_rules
+    n_lbf = lbf_rules.add_obligations(res, tree, "C09.R3", "transition")
     res.analysed = {"table_pairings": n, "axis_typed_sites": n_axis}
     res.assumptions = ["direction names in the code carry their usual meaning (up = previous row, left = previous column)",
                        "PacMan is excluded from the naming convention (its x/y naming is transposed); only sibling agreement is checked there"]
